@@ -9,6 +9,10 @@ SERVICE_REQUESTs (mostly for ssh-userauth again - what a client does that reques
 before every attempt - rarely for another name) at arbitrary points between the requests and inside
 exchanges; either one by one (reading the replies of each) or pipelined (all written back to back
 before anything is read).
+Key re-exchanges are part of the alphabet too: between any two messages (before the first request, between failed
+attempts, before a request naming another user, inside a keyboard-interactive exchange, several per connection) a complete
+re-key is run, started by the client (puppet renegotiate_keys) or by the server (Transport.renegotiate_keys of the tested
+side). In pipelined mode the KEXINIT queues behind the messages written so far.
 Multi-message exchanges are generated as blocks: a keyboard-interactive request that the
 application answers with an InteractiveQuery, then 1-3 INFO_RESPONSE rounds (application result
 per round: a further query / FAILED / PARTIAL / SUCCESSFUL) with 0-2 other requests (same or
@@ -18,7 +22,8 @@ answers to a keyboard-interactive request / an INFO_RESPONSE is carried by the m
 
 Model (from the statement): the first username that is evaluated is pinned - for the whole
 connection, i.e. also across the messages of an exchange and across a repeated SERVICE_REQUEST for
-ssh-userauth, which changes nothing: neither the pinned username nor the failures counted so far (a
+ssh-userauth and across key re-exchanges (new keys, same connection),
+which change nothing: neither the pinned username nor the failures counted so far (a
 SERVICE_REQUEST for any other name is the last message sent: the statement does not say what it does,
 only that nobody may be authenticated by it). A request naming another service, or
 another username, ends the connection: no callback for it, nobody authenticated. Every FAILED
@@ -36,6 +41,8 @@ Oracle clauses (each with its own signature):
                                  the connection (pipelined mode makes such requests available)
  disconnect-before-ten-failures  DISCONNECT(NO_MORE_AUTH_METHODS) although fewer than ten non-partial
                                  failures were answered and no username/service change occurred
+A violating history that contains key re-exchanges is run again without them; if the clause then holds, the re-exchange
+belongs to the root cause and the bucket ends in ":only-with-key-re-exchange-in-the-history".
 """
 from hypothesis import strategies as st
 
@@ -49,13 +56,14 @@ THOROUGH_WORKERS = 16
 RULE = (
     "hypothesis-generated message sequences (1..40) over 3 usernames x 3 services x 8 methods (incl. gssapi-with-mic / gssapi-keyex "
     "on a stub context) plus INFO_RESPONSE messages and repeated SERVICE_REQUESTs (ssh-userauth again; rarely a foreign name, which ends the "
-    "generated sequence) between requests and inside exchanges, with generated callback verdicts (FAILED/PARTIAL/SUCCESSFUL per method and "
+    "generated sequence) and complete key re-exchanges (client- or server-initiated; one element in 5..10, several per connection possible) "
+    "between requests and inside exchanges, with generated callback verdicts (FAILED/PARTIAL/SUCCESSFUL per method and "
     "password; per message for keyboard-interactive requests and INFO_RESPONSEs, incl. further InteractiveQuery rounds); sequences are "
     "built from single requests and from whole keyboard-interactive exchanges (request + 1..3 rounds, 0..2 other requests interleaved "
     "before each round); four program styles (grinding one user towards the failure cap, username switches, fully mixed, a service request "
     "before every attempt with the username changing at a generated point), each run "
     "one-by-one or pipelined; compared with a model of the statement that counts a FAILED result whichever message delivered it and keeps "
-    "the pinned username and the failure count across repeated service requests; "
+    "the pinned username and the failure count across repeated service requests and across key re-exchanges; "
     "non-trivial = the model reaches a username switch, a foreign service or ten failures; distinct by (policy, mode, sequence)"
 )
 
@@ -92,9 +100,15 @@ SVCNAMES = ["ssh-userauth", "ssh-connection", "x", ""]
 svcreq_st = st.fixed_dictionaries({"m": st.just("svcreq"), "name": st.sampled_from(["ssh-userauth"] * 57 + SVCNAMES[1:])})
 
 
+# a complete key re-exchange between two authentication messages (a transport-layer event: the connection, and with it
+# the pinned username and the failures counted so far, stays the same), started by the client or by the server
+rekey_st = st.fixed_dictionaries({"m": st.just("rekey"), "by": st.sampled_from(["client", "client", "server"])})
+
+
 def _with_svcreq(elem, n):
-    """`elem`, but one element in n is a SERVICE_REQUEST (one_of would give it the weight of a whole alternative)."""
-    return st.integers(0, n - 1).flatmap(lambda k: svcreq_st if k == 0 else elem)
+    """`elem`, but one element in n is a SERVICE_REQUEST and one in n a key re-exchange (one_of would give them the
+    weight of a whole alternative)."""
+    return st.integers(0, n - 1).flatmap(lambda k: svcreq_st if k == 0 else rekey_st if k == 1 else elem)
 
 
 def policy_st(weights):
@@ -130,6 +144,9 @@ def cases(draw):
         main = req_st(st.just(user), st.just("ssh-connection"), meth, r)
         odd = req_st(st.sampled_from(USERS), st.sampled_from(SERVICES), meth, r)
         reqs = draw(st.lists(main, min_size=9, max_size=22)) + draw(st.lists(st.one_of(main, main, odd), max_size=3))
+        if draw(st.integers(0, 2)) == 0:
+            # nothing but requests - and one key re-exchange somewhere among them
+            reqs.insert(draw(st.integers(0, len(reqs))), draw(rekey_st))
     elif style == "rerequest":
         # the pattern of a client that requests the service before every attempt: (SERVICE_REQUEST, request)*,
         # with the username staying or changing at a generated point
@@ -140,7 +157,7 @@ def cases(draw):
         other = req_st(st.sampled_from(USERS), st.sampled_from(["ssh-connection"] * 5 + ["ssh-userauth"]), meth, r)
         reqs = []
         for j in range(draw(st.integers(1, 6))):
-            reqs += draw(st.lists(svcreq_st, max_size=2))
+            reqs += draw(st.lists(st.integers(0, 3).flatmap(lambda k: rekey_st if k == 0 else svcreq_st), max_size=2))
             reqs.append(draw(st.one_of(main, main.map(lambda x: x), other)) if j else draw(main))
             if draw(st.integers(0, 3)) == 0:
                 reqs.append(draw(resp_st(r)))
@@ -178,7 +195,7 @@ def cases(draw):
 def verdict_of(pol, rq):
     """What the application answers to this message (None: no callback is responsible)."""
     m = rq["m"]
-    if m == "svcreq":
+    if m in ("svcreq", "rekey"):
         return None
     if m in ("kbd", "resp"):
         return rq.get("r") or pol.get("kbd", "F")
@@ -215,6 +232,10 @@ def model(case):
         if m == "resp" and gss_open:
             e["skip"] = True
         elif dead or authed or over:
+            pass
+        elif m == "rekey":
+            # new keys, same connection: the pinned username and the failures counted so far are unchanged (what a
+            # KEXINIT does to a half-done gssapi-with-mic exchange is outside the statement: see after_open)
             pass
         elif m == "svcreq":
             # ssh-userauth is accepted again and changes nothing: the pinned username and the failures counted so
@@ -323,6 +344,8 @@ USER_CBS = ("check_auth_none", "check_auth_password", "check_auth_publickey", "c
 def _desc(rq):
     if rq["m"] == "svcreq":
         return ("SERVICE_REQUEST", rq["name"])
+    if rq["m"] == "rekey":
+        return ("KEY-RE-EXCHANGE", "by " + rq["by"])
     return ("INFO_RESPONSE", rq.get("r")) if rq["m"] == "resp" else (rq["u"], rq["svc"], rq["m"]) + ((rq.get("r"),) if rq["m"] == "kbd" else ())
 
 
@@ -350,15 +373,38 @@ def evidence_classes(case, mdl, classes):
             classes.add("service-rerequest:after-a-username-was-pinned")
         if e["fails"]:
             classes.add("service-rerequest:after-failed-attempts")
-        nxt = next(((r2, e2) for r2, e2 in live[j + 1 :] if r2["m"] not in ("svcreq", "resp")), None)
+        nxt = next(((r2, e2) for r2, e2 in live[j + 1 :] if r2["m"] not in ("svcreq", "resp", "rekey")), None)
         if nxt is not None and e["pinned"] is not None:
             classes.add("service-rerequest:next-request-names-" + ("another-user" if nxt[0]["u"] != e["pinned"] else "the-pinned-user"))
         if any(x["cause"] == "cap" for _, x in live[j + 1 :]):
             classes.add("service-rerequest:before-the-cap-is-reached")
+    # key re-exchanges: who started them, what the connection had seen before, and what follows
+    for j, (rq, e) in enumerate(live):
+        if rq["m"] != "rekey":
+            continue
+        classes.add("rekey:by-" + rq["by"])
+        classes.add("rekey:" + ("pipelined" if case["pipelined"] else "one-by-one"))
+        if e["after_open"]:
+            classes.add("rekey:while-a-gssapi-with-mic-exchange-is-open")
+            continue
+        classes.add("rekey:after-a-username-was-pinned" if e["pinned"] is not None else "rekey:before-any-request")
+        if e["fails"]:
+            classes.add("rekey:after-failed-attempts")
+        nxt = next(((r2, e2) for r2, e2 in live[j + 1 :] if r2["m"] not in ("svcreq", "resp", "rekey")), None)
+        if nxt is not None and e["pinned"] is not None:
+            classes.add("rekey:next-request-names-" + ("another-user" if nxt[0]["u"] != e["pinned"] else "the-pinned-user"))
+        if e["fails"] and any(x["cause"] == "cap" for _, x in live[j + 1 :]):
+            classes.add("rekey:between-failures-before-the-cap-is-reached")
+        if sum(1 for r2, _ in live if r2["m"] == "rekey") > 1:
+            classes.add("rekey:several-in-one-connection")
     # keyboard-interactive exchanges: rounds judged, requests interleaved, how they ended
     rounds = between = None
     for rq, e in live:
         m = rq["m"]
+        if m == "rekey":
+            if rounds is not None:
+                classes.add("rekey:inside-kbd-exchange")
+            continue
         if m == "svcreq":
             if rounds is not None:
                 classes.add("service-rerequest:inside-kbd-exchange")
@@ -382,7 +428,53 @@ def evidence_classes(case, mdl, classes):
                 rounds, between = 0, 0
 
 
+class _Capture:
+    """Stands in for ctx while a history runs: the first oracle failure is kept, not reported (run_case reports it,
+    after trying the same history without its key re-exchanges)."""
+
+    def __init__(self, ctx=None):
+        self.ctx = ctx
+        self.v = None
+
+    def violation(self, clause, bucket, case, detail):
+        if self.v is None:
+            self.v = (clause, bucket, case, detail)
+        return False
+
+    def inconc(self, key):
+        if self.ctx is not None:
+            self.ctx.inconc(key)
+
+
+REKEY_BUCKET = ":only-with-key-re-exchange-in-the-history"
+
+
+def _has_rekey(case):
+    return any(rq["m"] == "rekey" for rq in case["reqs"])
+
+
 def run_case(ctx, case, record=True):
+    """Execute + report. A violating history that contains key re-exchanges is run again without them: if the same
+    clause still fails, that shorter history is what gets reported; if not, the re-exchange is part of the root cause
+    and the bucket says so (REKEY_BUCKET - on replay: whenever the stored history contains one)."""
+    cap = _Capture(ctx)
+    execute_case(cap, ctx, case, record)
+    if cap.v is None:
+        return
+    clause, bucket, sub, detail = cap.v
+    if _has_rekey(sub):
+        if not ctx.replaying:
+            red = dict(case, reqs=[rq for rq in case["reqs"] if rq["m"] != "rekey"])
+            cap2 = _Capture()
+            execute_case(cap2, ctx, red, False)
+            if cap2.v is not None and cap2.v[0] == clause:
+                ctx.violation(*cap2.v)
+                return
+        bucket += REKEY_BUCKET
+    ctx.violation(clause, bucket, sub, detail)
+
+
+def execute_case(cap, ctx, case, record=True):
     mdl = model(case)
     reqs = case["reqs"]
     classes = set()
@@ -401,7 +493,7 @@ def run_case(ctx, case, record=True):
         try:
             if case.get("gss"):
                 s.server.kexgss_ctxt = A.GssStub({"mic_ok": True})
-            _run(ctx, case, mdl, reqs, s, classes)
+            _run(cap, case, mdl, reqs, s, classes)
         finally:
             s.close()
             if record:
@@ -500,6 +592,12 @@ def _run(ctx, case, mdl, reqs, s, classes):
         for i in range(stop):
             if mdl[i]["skip"]:
                 continue
+            if reqs[i]["m"] == "rekey":
+                # the KEXINIT queues behind what was written so far; the exchange itself cannot be pipelined
+                if not s.rekey(reqs[i]["by"]):
+                    break
+                classes.add("rekey:completed")
+                continue
             if s._send(payload(s, reqs[i], pol)) is None:
                 break
             sent += 1
@@ -516,7 +614,16 @@ def _run(ctx, case, mdl, reqs, s, classes):
         if mdl[i]["skip"]:
             continue
         n0 = s.ncalls()
-        if mdl[i]["opens"]:
+        if reqs[i]["m"] == "rekey":
+            if s.rekey(reqs[i]["by"]):
+                classes.add("rekey:completed")
+                # nothing is said or evaluated by a key exchange (no sentinel into an open gssapi-with-mic exchange)
+                r = A.Step([], False) if mdl[i]["after_open"] else s.exchange(None)
+            else:
+                classes.add("rekey:session-ended-instead")
+                r = s.exchange(None)
+                r = A.Step(r.replies, True)
+        elif mdl[i]["opens"]:
             # the server now restricts the next packet type: no sentinel behind this request
             r = s.exchange(payload(s, reqs[i], pol), sentinel=False, expect=1)
             if r.sent and (r.dead or r.types() != [60]):
